@@ -298,6 +298,7 @@ WORKLOADS = [
     Workload("programs", w_programs, 2000, 200000),
     Workload("compare", w_compare, 1500, 100000),
     Workload("library_use", w_library_use, 30, 1000),
+    Workload("repo_tests", lambda ctx, rng, i: core.run_repo_tests(ctx), 1, 1, budget=1800, tiers=("thorough",)),
 ]
 
 
